@@ -52,7 +52,7 @@ fn write_seeds(dir: &Path, prefix_byte: bool) -> usize {
         }
     }
     // generated valid files from fixed seeds
-    let o = verif_model::filegen::RichOpts { override_chance: 0, corrupt_chance: 0, max_gap: 8, tables_early: true, allow_compressed: true, max_names: 6, shrink_chance: 0 };
+    let o = verif_model::filegen::RichOpts { override_chance: 0, corrupt_chance: 0, max_gap: 8, tables_early: true, allow_compressed: true, max_names: 6, shrink_chance: 0, many_sections: false };
     for seed in 1..=24u64 {
         let mut bytes = vec![0u8; 700];
         verif_model::choice::fill(seed, &mut bytes);
